@@ -33,7 +33,7 @@ def followup_script(sc, k):
     co = "ver=%s sid=R%s%s" % (sc["ver"], " tick=1" if sc["mode"] == "ticket" else "", "" if sc["ver"] == "T13" else " suites=0x2f" if sc["ver"] == "T11" else " suites=0xc02f")
     L = ["failat %d" % k,
          "keys ks id=%s/RSA/2048_RSA.pem,%s/RSA/2048_RSA_KEY.pem ca=%s/RSA/2048_RSA_CA.pem tickets=1" % (TK, TK, TK), "keys kc ca=%s/RSA/2048_RSA_CA.pem" % TK,
-         "new s0 server keys=ks %s" % so, "new c0 client keys=kc %s" % co, "link c0 s0", "pump c0 s0 max=60", "send c0 5", "pump c0 s0 max=8", "state c0", "state s0",
+         "new s0 server keys=ks %s" % so, "new c0 client keys=kc %s" % co, "link c0 s0", "pump c0 s0 max=60", "send c0 5", "send s0 2600", "send c0 3000", "pump c0 s0 max=8", "state c0", "state s0",
          "close c0", "pump c0 s0 max=6", "del c0", "del s0", "failoff", "sid R",
          "new s1 server keys=ks %s" % so, "new c1 client keys=kc %s" % co, "link c1 s1", "pump c1 s1 max=60", "send c1 5", "send s1 6", "pump c1 s1 max=8", "state c1", "state s1",
          "close c1", "pump c1 s1 max=6", "del c1", "del s1"]
@@ -45,7 +45,8 @@ def script(sc, pkidir, k):
         return followup_script(sc, k)
     L, meta = authgen.episode(sc, pkidir, 0)
     # authgen ends with state lines; add closure and deletion so that everything can be leak-checked
-    L = ["failat %d" % k] + L + ["close c0", "pump c0 s0 max=6", "del c0", "del s0", "failoff"]
+    # application writes larger than the default 1500-byte output buffer (the buffer has to grow: matrixSslGetWritebuf), then closure
+    L = ["failat %d" % k] + L + ["send c0 3000", "send s0 2600", "pump c0 s0 max=8", "send c0 2000", "pump c0 s0 max=4", "close c0", "pump c0 s0 max=6", "del c0", "del s0", "failoff"]
     return L, meta
 
 def run(tier, seed):
